@@ -167,6 +167,7 @@ func runHist(ci interface{}, s *vkit.Stats) error {
 			// behaviour
 			args := argsFor(fn, int64(step)+int64(i))
 			before := corpus.OrigRan[k]
+			staticBefore := corpus.StaticRan[fn.ID]
 			m := t.last
 			if m != nil && m.rec != nil {
 				m.rec.Res = resultsFor(fn, int64(step)*5+3)
@@ -189,6 +190,16 @@ func runHist(ci interface{}, s *vkit.Stats) error {
 				continue // some registered replacement answered; which one is not determined by the statement
 			}
 			switch m.kind {
+			case "static":
+				if ran != 0 || corpus.StaticRan[fn.ID]-staticBefore != 1 {
+					return fmt.Errorf("%s: mocked by its static replacement: original ran %d times, the replacement %d times", where, ran, corpus.StaticRan[fn.ID]-staticBefore)
+				}
+				for j := range got {
+					if !got[j].IsZero() {
+						return fmt.Errorf("%s: the static replacement returns zero values, caller got %s", where, vkit.Describe(got[j]))
+					}
+				}
+				s.Class("call/static-replacement")
 			case "repl":
 				if ran != 0 || len(m.rec.Args) != len(args) {
 					return fmt.Errorf("%s: mocked by a callback: original ran %d times, callback saw %d arguments", where, ran, len(m.rec.Args))
@@ -242,6 +253,12 @@ func runHist(ci interface{}, s *vkit.Stats) error {
 				mk, em := handle(b, fn, h)
 				switch m.kind {
 				case "repl":
+					if fn.Static != nil && vkit.Pick(op.I[3], 3) == 0 {
+						// a package-level function as replacement (a function value in read-only data, not on the heap)
+						m.kind = "static"
+						mk.Apply(fn.Static)
+						break
+					}
 					m.rec = &corpus.Rec{}
 					mk.Apply(fn.MkRepl(m.rec))
 				case "ret":
